@@ -179,6 +179,28 @@ theorem shareOK_sound {A W : Type} [DecidableEq A] (B : List A → W) (q₁ q₂
     B (keyTuple exprBuildArgs q₁) = B (keyTuple exprBuildArgs q₂) :=
   tuple_key_faithful _ _ model_key_covers_build.1 B q₁ q₂ (by simpa [shareOK] using h)
 
+/-- … also with the constants field added (the driver's test for expression objects) -/
+theorem shareOK_sound_with_constants {A W : Type} [DecidableEq A] (B : List A → W) (q₁ q₂ : Query A)
+    (h : shareOK exprShareFields q₁ q₂ = true) :
+    B (keyTuple exprBuildArgs q₁) = B (keyTuple exprBuildArgs q₂) ∧ q₁ "constants" = q₂ "constants" := by
+  have hk : keyTuple exprShareFields q₁ = keyTuple exprShareFields q₂ := by simpa [shareOK] using h
+  have hall : ∀ a ∈ exprShareFields, q₁ a = q₂ a := by
+    unfold keyTuple at hk
+    exact List.map_inj_left.1 hk
+  refine ⟨?_, hall "constants" (by decide)⟩
+  apply tuple_key_faithful exprKeyFields _ model_key_covers_build.1 B
+  unfold keyTuple
+  exact List.map_congr_left fun a ha => hall a (by simp [exprShareFields, ha])
+
+/-- The function with folded constants captures the constant arrays by reference, and arrays
+    cannot enter a dict key by value; so the only sound policy for
+    `_array_contract_expression_with_constants` is the one the code has: it does not store what
+    it builds in any module-level cache (table from this run's source). -/
+theorem constants_path_not_cached : constPathStoresInCache = false := by decide
+
+/-- the size dict enters the key as `(label, size)` pairs, not as sizes or labels alone -/
+theorem size_dict_fully_keyed : sizeDictFullyKeyed = true := by decide
+
 /-- **lru_transparent**: `functools.lru_cache` (identity key, arbitrary eviction) around a
     function of its arguments is invisible. -/
 theorem lru_transparent {A W : Type} [DecidableEq A] (f : A → W) (calls : List (Call A A)) :
